@@ -9,6 +9,7 @@ import (
 	"time"
 
 	"github.com/nspcc-dev/dbft"
+	"github.com/nspcc-dev/dbft/internal/consensus"
 	"github.com/nspcc-dev/dbft/verifharness/sim"
 	"github.com/nspcc-dev/dbft/verifharness/vt"
 )
@@ -120,6 +121,39 @@ var scenarios = map[string]scenario{
 			s.W.Fail("C09", "a validator restarted with empty state broadcast a second, different proposal for the same height and view", "D11-restarted-primary-reproposed")
 		}
 		return s.W
+	}},
+	// D7: the reference recovery message codec dropped pre-commits and lost the preparation hash.
+	"D7-recovery-codec-precommits": {Prop: "C19", Key: "D7-recovery-roundtrip-differs", Run: func(keep bool) *sim.World {
+		w := sim.NewWorld(soloCfg(1, 1, -1), &ReplaySrc{}, []int{0}, nil, nil, keep)
+		d := desc{T: dbft.RecoveryMessageType, Height: 7, View: 1, Idx: 2, Emb: []desc{
+			{T: dbft.PreCommitType, Height: 7, View: 1, Idx: 3, Data: [4]byte{0, 0, 0, 7}},
+			{T: dbft.CommitType, Height: 7, View: 1, Idx: 3},
+		}}
+		p := d.build()
+		dec := new(consensus.Payload)
+		if err := dec.UnmarshalUnsigned(p.(*consensus.Payload).MarshalUnsigned()); err != nil {
+			w.Fail("C19", "decoder rejects a recovery message: "+err.Error(), "decoder-rejects-own-encoding")
+		} else if a, b := observable(p, 0), observable(dec, 0); a != b {
+			w.Fail("C19", "decode(encode(recovery message)) differs: before: "+a+" after: "+b, "D7-recovery-roundtrip-differs")
+		}
+		return w
+	}},
+	"D7-recovery-codec-responses": {Prop: "C19", Key: "D7-recovery-roundtrip-differs", Run: func(keep bool) *sim.World {
+		w := sim.NewWorld(soloCfg(1, 1, -1), &ReplaySrc{}, []int{0}, nil, nil, keep)
+		req := desc{T: dbft.PrepareRequestType, Height: 7, View: 1, Idx: 2, Ts: 55, Nonce: 9, Hashes: []u256{{1}, {2}}}
+		h := req.build().Hash()
+		d := desc{T: dbft.RecoveryMessageType, Height: 7, View: 1, Idx: 0, Emb: []desc{req,
+			{T: dbft.PrepareResponseType, Height: 7, View: 1, Idx: 1, Prep: h},
+			{T: dbft.PrepareResponseType, Height: 7, View: 1, Idx: 3, Prep: h},
+		}}
+		p := d.build()
+		dec := new(consensus.Payload)
+		if err := dec.UnmarshalUnsigned(p.(*consensus.Payload).MarshalUnsigned()); err != nil {
+			w.Fail("C19", "decoder rejects a recovery message: "+err.Error(), "decoder-rejects-own-encoding")
+		} else if a, b := observable(p, 2), observable(dec, 2); a != b {
+			w.Fail("C19", "decode(encode(recovery message)) differs: before: "+a+" after: "+b, "D7-recovery-roundtrip-differs")
+		}
+		return w
 	}},
 	// D12: the primary counted an early response naming another proposal.
 	"D12-primary-early-response": {Prop: "C04", Key: "commit-without-prep-quorum", Run: func(keep bool) *sim.World {
